@@ -351,7 +351,7 @@ def main():
         for w in d['witnesses']:
             print(json.dumps(w, indent=1)[:3000])
         return 0
-    n = 80 if a.tier == 'quick' else 500
+    n = 80 if a.tier == 'quick' else 2000
     for r in parallel(worker, [(bindir, i, n) for i in range(16)]):
         rep.merge(r)
     pc = rep.tables.get('prefixes_checked', {}).get('n', 0)
